@@ -1362,15 +1362,18 @@ func (p *balloons) setConfig(bpoptions *BalloonsOptions) error {
 		// Available CPUs not specified, default to all on-line CPUs.
 		availableCpus = p.options.System.CPUSet().Difference(p.options.System.Offlined())
 	}
+	oldAllowed, oldReserved := p.allowed, p.reserved
 	p.allowed = availableCpus
 
 	setOmittedDefaults(bpoptions)
 
 	reservedBalloonDef, defaultBalloonDef, err := p.fillBuiltinBalloonDefs(bpoptions)
 	if err != nil {
+		p.allowed, p.reserved = oldAllowed, oldReserved
 		return err
 	}
 	if err = p.validateConfig(bpoptions); err != nil {
+		p.allowed, p.reserved = oldAllowed, oldReserved
 		return balloonsError("invalid configuration: %w", err)
 	}
 	p.fillLoadVirtDevices(bpoptions.LoadClasses)
